@@ -13,7 +13,7 @@ import (
 const psPkg = "server/backend/pubsub"
 
 func init() {
-	register(&Rule{ID: "L6", Min: 8, Text: "channel discipline of Subscription: every close of and every send on the events channel is reachable only on the edge where the closed flag is false (tested under the same critical section), and every close is accompanied by closed = true before it in the same section; Close is idempotent; the publisher's close channel is closed only in BatchPublisher.Close, which is called only from Subscriptions.Close, which in turn is called only inside the delete callback of the subscription map (under the shard lock, after the set was found empty)",
+	register(&Rule{ID: "L6", Min: 6, Text: "channel discipline of Subscription: every close of and every send on the events channel is reachable only on the edge where the closed flag is false (tested under the same critical section), and every close is accompanied by closed = true before it in the same section; Close is idempotent; the publisher's close channel is closed only in BatchPublisher.Close, which is called only from Subscriptions.Close, which in turn is called only inside the delete callback of the subscription map (under the shard lock, after the set was found empty)",
 		Run: func(x *Ctx) {
 			closedF := x.P.Field(psPkg + ".Subscription.closed")
 			eventsF := x.P.Field(psPkg + ".Subscription.events")
@@ -75,8 +75,8 @@ func init() {
 					}
 				}
 			}
-			if n < 3 {
-				x.C.Vacuous(x.id()+" sends/closes on Subscription.events", n, 3)
+			if n < 2 {
+				x.C.Vacuous(x.id()+" sends/closes on Subscription.events", n, 2)
 			}
 			// close protocol of the publisher
 			bpClose := x.P.FnObj(psPkg + ".(*BatchPublisher).Close")
@@ -513,7 +513,9 @@ func init() {
 							}
 						}
 						return f == actorF
-					}) && prog.DependsOn(k, func(w ssa.Value) bool { return w == ssa.Value(ev) || prog.Reaches(w, func(u ssa.Value) bool { return u == ssa.Value(ev) }) })
+					}) && prog.DependsOn(k, func(w ssa.Value) bool {
+						return w == ssa.Value(ev) || prog.Reaches(w, func(u ssa.Value) bool { return u == ssa.Value(ev) })
+					})
 				}
 				i := 0
 				for _, b := range cl.Blocks {
